@@ -1,7 +1,7 @@
 From Coq Require Import Extraction ExtrOcamlBasic NArith.
-From DV Require Import Base.Outcome Base.Names C14.Gen C14.Model C14.ModelN3 C14.ModelChain C14.ModelDs C14.ModelTa C14.ModelWild C14.ModelNode C14.ModelCache C14.ModelGroups.
+From DV Require Import Base.Outcome Base.Names C14.Gen C14.Model C14.ModelN3 C14.ModelChain C14.ModelDs C14.ModelTa C14.ModelWild C14.ModelNode C14.ModelCache C14.ModelGroups C14.ModelConn.
 Extraction Language OCaml.
 Extraction "../build/ml/C14/model.ml" c14_nsec_in_range c14_nsec3_in_range c14_supported_nsec3_hash
   c14_label_to_hash c14_nodata c14_not_exists c14_nxdomain c14_nodata_wildcard c14_sig_time_ok
   c14_wildcard_ce c14_mkG positive_answer_state mkA check_sig mkS negative_msg_state answer_msg_state
-  nsec3_for_not_exists nsec3_for_not_exists_no_ce nsec3_for_nodata nsec3_for_nxdomain nsec3_for_nodata_wildcard mkN3 child_node_state no_ds_decision ds_reply_decision nsec_for_ds nsec3_for_ds mkDG revalidate trust_anchor_state wildcard_msg_state anchor_still_trusts child_still_trusts mkST get_node mkCN groupset_of mkR.
+  nsec3_for_not_exists nsec3_for_not_exists_no_ce nsec3_for_nodata nsec3_for_nxdomain nsec3_for_nodata_wildcard mkN3 child_node_state no_ds_decision ds_reply_decision nsec_for_ds nsec3_for_ds mkDG revalidate trust_anchor_state wildcard_msg_state anchor_still_trusts child_still_trusts mkST get_node mkCN groupset_of mkR connection.
